@@ -83,6 +83,7 @@ class Decl:
     verus: bool = True                             # goes to the Verus side
     kani: bool = False                             # goes to the Kani side
     expect_reject: bool = False
+    vis: str = 'pub'                               # declared visibility of the newtype ('' = private)
     note: str = ''
 
     @property
@@ -135,7 +136,7 @@ class Decl:
         return ', '.join(parts)
 
     def source(self):
-        return '#[nutype(%s)]\npub struct %s%s(%s);\n' % (self.attr_text(), self.name, self.generics, self.inner)
+        return '#[nutype(%s)]\n%sstruct %s%s(%s);\n' % (self.attr_text(), (self.vis + ' ') if self.vis else '', self.name, self.generics, self.inner)
 
     # ------------------------------------------------------------------ spec generator (Verus)
     def view_type(self):
